@@ -98,8 +98,13 @@ def fs_case(draw):
             names.append(draw(st.sampled_from(table)))
         elif c == 7:
             names.append(draw(st.one_of(N.synthetic_label(max_size=7), st.sampled_from(("ChargeConj(Xq)", "ChargeConj(ChargeConj(Xq))", "ChargeConj(K+)", "ChargeConj()")))))
-        else:
+        elif c == 8:
             names.append(draw(st.text(alphabet="abcXYZ019+-*'()_~", min_size=1, max_size=6)))
+        else:
+            # labels that differ from a particle name only by white space, or contain some, are unknown labels like any other
+            # (they can only be given in a list or a mapping: the string form splits at white space)
+            base = draw(st.sampled_from(table))
+            names.append(draw(st.sampled_from((" " + base, base + " ", base + "\n", "\t" + base, "my particle", base + " " + base, " "))))
     # particle/antiparticle pairs in the same final state (with unequal counts) are a class of
     # their own: the name set is then closed under conjugation while the multiset is not
     ref = ref_pdg_conj if pdg else N.ref_conj
@@ -113,6 +118,8 @@ def fs_case(draw):
     meta = draw(st.dictionaries(meta_key, json_val, max_size=4))
     bf = draw(st.floats(0, 1, allow_nan=False))
     how = draw(st.sampled_from(("dict", "list", "string")))
+    if any(len(n.split()) != 1 or n.split()[0] != n for n in names):
+        how = draw(st.sampled_from(("dict", "list")))
     return {"pdg": pdg, "names": names, "mult": mult, "meta": meta, "bf": bf, "how": how}
 
 
